@@ -61,6 +61,7 @@ def m_try_branch(I, st, fr, callee, args, dty, dest, ret_bb):
                                   ('Break', 0): mk_err(get_field(I, st, v, 'Err', 0))})
 
 def m_from_residual(I, st, fr, callee, args, dty, dest, ret_bb):
+    if callee.startswith('<std::option::Option'): return mk_none()
     v = mat(I, st, args[0])
     if ty_head(v.ty) == 'Option': return mk_none()
     return mk_err(get_field(I, st, v, 'Err', 0))
